@@ -802,7 +802,10 @@ impl Add<HalfPel> for HalfPel {
     type Output = HalfPel;
 
     fn add(self, rhs: Self) -> Self {
-        HalfPel(self.0 + rhs.0)
+        // Unrestricted motion vectors (Annex D) of an invalid bitstream can
+        // accumulate beyond the range of an `i16`; saturate rather than
+        // overflow.
+        HalfPel(self.0.saturating_add(rhs.0))
     }
 }
 
